@@ -445,7 +445,8 @@ class SubRoutine(GlobalValue):
         for block in unreachable:
             # Important! Loop over successors first, since last instruction
             # determines the successors:
-            for successor in block.successors:
+            # A block can have two edges to the same successor:
+            for successor in dict.fromkeys(block.successors):
                 self.logger.debug("updating successor %s", successor)
                 for phi in successor.phis:
                     self.logger.debug("updating phi %s", phi)
